@@ -215,6 +215,9 @@ func runC08(c *eng.Ctx) {
 	c.Rule("R01.9", "K5")
 	ruleReaderSegment(c)
 	c.Floor(6)
+	c.Rule("R01.10", "K5")
+	ruleScannerEntries(c)
+	c.Floor(1)
 	// appends that roll a segment while a compaction runs
 	c.Rule("R09.7", "K1")
 	ruleCleanSwap(c)
